@@ -116,13 +116,15 @@ Section Concrete.
     fun i j k => re conj (b i j k * smu0 * e i j k).
 
   (* one source-frequency pair: the generated volume averaging into a fresh
-     zero array (grad = np.zeros(...); interp_edges_to_vol_averages(...)) *)
+     zero array (grad = np.zeros(...); interp_edges_to_vol_averages(...)).
+     The gfield arrays are tabulated on the edge box the loop reads (identity
+     there; each product is then computed once when executing). *)
   Definition grad_sf (nx ny nz : Z) (vol : A3) (smu0 : K)
              (e b : A3 * A3 * A3) : A3 * A3 * A3 :=
     interp_edges_to_vol_averages nx ny nz
-      (gfield3 smu0 (fst (fst e)) (fst (fst b)))
-      (gfield3 smu0 (snd (fst e)) (snd (fst b)))
-      (gfield3 smu0 (snd e) (snd b))
+      (tab3 0 (nx+1) (ny+1) (nz+1) (gfield3 smu0 (fst (fst e)) (fst (fst b))))
+      (tab3 0 (nx+1) (ny+1) (nz+1) (gfield3 smu0 (snd (fst e)) (snd (fst b))))
+      (tab3 0 (nx+1) (ny+1) (nz+1) (gfield3 smu0 (snd e) (snd b)))
       vol zero3 zero3 zero3.
 
   Definition add33 (a b : A3 * A3 * A3) : A3 * A3 * A3 :=
@@ -183,18 +185,46 @@ Section Concrete.
 
   (* jvec source on the same grid: -smu0 * e * M_e(vol * dsigma), with the
      four-cell edge averages of Model/FIT.v; dsigma = expand(chain * v) *)
+  (* chain rule applied to the components of a model-shaped vector (jvec):
+     component 0 with property_x, the second with property_y (HTI) or
+     property_z (VTI), triaxial: x, y, z *)
+  Definition chain_mul (case : Z) (v : list A3) (cx cy cz : A3) : list A3 :=
+    if Z.eqb case 0 then [mul3 (nth 0 v zero3) cx]
+    else if Z.eqb case 1 then [mul3 (nth 0 v zero3) cx; mul3 (nth 1 v zero3) cy]
+    else if Z.eqb case 2 then [mul3 (nth 0 v zero3) cx; mul3 (nth 1 v zero3) cz]
+    else [mul3 (nth 0 v zero3) cx; mul3 (nth 1 v zero3) cy; mul3 (nth 2 v zero3) cz].
+
+  (* jvec source on the same grid: -smu0 * e * M_e(vol * dsigma), with the
+     four-cell edge averages of Model/FIT.v; dsigma = expand(chain * v) *)
   Definition jvec_source (case : Z) (vol : A3) (smu0 : K) (e : A3 * A3 * A3)
              (v : list A3) (cx cy cz : A3) : A3 * A3 * A3 :=
-    let cv := expand case
-                (if Z.eqb case 0 then [mul3 (nth 0 v zero3) cx]
-                 else if Z.eqb case 1 then [mul3 (nth 0 v zero3) cx; mul3 (nth 1 v zero3) cy]
-                 else if Z.eqb case 2 then [mul3 (nth 0 v zero3) cx; mul3 (nth 1 v zero3) cz]
-                 else [mul3 (nth 0 v zero3) cx; mul3 (nth 1 v zero3) cy;
-                       mul3 (nth 2 v zero3) cz]) in
+    let cv := expand case (chain_mul case v cx cy cz) in
     let wx := mul3 vol (fst (fst cv)) in
     let wy := mul3 vol (snd (fst cv)) in
     let wz := mul3 vol (snd cv) in
     (fun i j k => - smu0 * (fst (fst e) i j k * Me_x wx i j k),
      fun i j k => - smu0 * (snd (fst e) i j k * Me_y wy i j k),
      fun i j k => - smu0 * (snd e i j k * Me_z wz i j k)).
+
+  (* what one edge (ix,iy,iz) adds to cell (i,j,k) in the volume averaging:
+     [hits a b t] counts how often t occurs among the two clamped neighbours *)
+  Definition hits (a b t : Z) : K :=
+    (if Z.eqb t a then 1 else 0) + (if Z.eqb t b then 1 else 0).
+  Definition ixm (ix : Z) : Z := Z.max 0 (ix - 1).
+  Definition ixp (n ix : Z) : Z := Z.min (n - 1) ix.
+  Definition contrib_x (nx ny nz : Z) (vol ex : A3) (ix iy iz i j k : Z) : K :=
+    if (Z.ltb ix nx && Z.eqb i ix)%bool
+    then hits (ixm iy) (ixp ny iy) j * hits (ixm iz) (ixp nz iz) k
+         * (vol i j k * ex ix iy iz / (Flit 4 1))
+    else 0.
+  Definition contrib_y (nx ny nz : Z) (vol ey : A3) (ix iy iz i j k : Z) : K :=
+    if (Z.ltb iy ny && Z.eqb j iy)%bool
+    then hits (ixm ix) (ixp nx ix) i * hits (ixm iz) (ixp nz iz) k
+         * (vol i j k * ey ix iy iz / (Flit 4 1))
+    else 0.
+  Definition contrib_z (nx ny nz : Z) (vol ez : A3) (ix iy iz i j k : Z) : K :=
+    if (Z.ltb iz nz && Z.eqb k iz)%bool
+    then hits (ixm ix) (ixp nx ix) i * hits (ixm iy) (ixp ny iy) j
+         * (vol i j k * ez ix iy iz / (Flit 4 1))
+    else 0.
 End Concrete.
